@@ -7,4 +7,5 @@ mkdir -p .build evidence replays
 [ -f harness/Cargo.lock ] || cp /repo/Cargo.lock harness/Cargo.lock
 (cd harness && cargo build --offline --quiet) || { cp /repo/Cargo.lock harness/Cargo.lock; (cd harness && cargo build --offline --quiet); }
 (cd lean && lake build PortusModel pmodel)
+bash harness/cvm/build.sh >/dev/null
 echo setup-ok
